@@ -463,7 +463,7 @@ func init() {
 	Register(&Engine{
 		Prop: "C16", Name: "fsdiff/listing", Run: runC16,
 		Trials: map[string]int{"quick": 30000, "thorough": 300000},
-		Rule:   "a directory with 0..40 children (400 on os.FS, beyond the getdents batch; files and directories mixed) is built on a drawn stack (mem with permuted listing order, keyvalue over both SimStore flavours, mount with a child that is a mount point, Sub, cache, tar, os.FS); the by-name listing is judged for completeness, duplicates, order and agreement of name/kind/Info with Stat; 1-2 fresh handles are read with drawn page-size sequences (1, 2, N-1, N, N+1, huge, <=0 on a fresh handle) and judged for multiset equality, empty-page-nil-error, early/missing EOF; listing a regular file must fail with ErrNotDir; non-trivial = directory not empty; distinct = event-log hash",
+		Rule:   "a directory with 0..40 children (400 on os.FS, beyond the getdents batch; files and directories mixed) is built on a drawn stack (mem with permuted listing order, keyvalue over both SimStore flavours, mount with a child that is a mount point, Sub, cache, tar, os.FS); the by-name listing is judged for completeness, duplicates, order and agreement of name/kind/Info with Stat; 1-2 fresh handles are read with drawn page-size sequences (1, 2, N-1, N, N+1, huge, <=0 on a fresh handle) and judged for multiset equality, empty-page-nil-error, early/missing EOF; listing a regular file must fail with ErrNotDir; non-trivial = directory not empty; distinct = event-log hash One listing in six ends with a Seek of the directory handle beyond the end and one more page: only children, at most all of them, and the call returns.",
 		Components: map[string][]string{
 			"real": {"keyvalue file.ReadDir", "cache dir.ReadDir", "os file ReadDir", "fs.go ReadDir fallback", "mem store child enumeration", "mount", "Sub", "tar (joined before listing)"},
 			"stub": {"SimStore (keyvalue kinds)"},
